@@ -3,7 +3,8 @@
    participants (in index order) with their instructor flag, the number of hidden extra names. *)
 From Coq Require Import List Arith Bool Lia.
 Require Import HP1 Cao1 Cao3 Listing.
-Require Json SimpleRead SimpleRound.
+Require Json SimpleRead SimpleRound SimpleValid ListingText.
+From Coq Require String ZArith.
 Import ListNotations.
 Open Scope nat_scope.
 
@@ -52,6 +53,25 @@ Theorem C14_input_round_trip : forall ps cs, Forall SimpleRound.wf_part ps -> Fo
   SimpleRead.simple_read (SimpleRound.doc ps cs) = Json.ROk (ps, cs).
 Proof. exact SimpleRound.simple_round_trip. Qed.
 
+(* the TEXT: for every input document the program accepts, what `--print` writes to stdout (ListingText.print_stage, the model of main.rs's
+   print! and io::format_assignment, compared byte for byte with the real stdout on every run) is the rendering of the structural listing
+   above -- per course the header with its name, the count, the optional room line, one line per listed person with the flag, the
+   hidden names -- for the courses, instructors and hidden names of the input as read *)
+Theorem C14_text : forall data ps cs rooms a, SimpleRead.simple_read data = Json.ROk (ps, cs) -> SimpleRead.consistentb ps cs = true ->
+  ListingText.print_stage cs ps rooms a =
+  ListingText.unlines (ListingText.title ::
+                       ListingText.render cs ps rooms (listing (map SimpleValid.to_course cs) (ListingText.hidden cs) a)).
+Proof.
+  intros data ps cs rooms a Hr Hc. apply ListingText.print_stage_render.
+  destruct (SimpleRead.accepted_is_consistent data ps cs Hr Hc) as (_ & Hin & _ & _).
+  intros c i Hcin Hi. destruct (Hin c i Hcin Hi) as [H _]. exact H.
+Qed.
+(* ... and the lines are recoverable from the text when no line contains a line feed *)
+Theorem C14_text_lines : forall ls, forallb (fun l => negb (ListingText.has_nl l)) ls = true ->
+  ListingText.lines_of (ListingText.unlines ls) String.EmptyString = ls.
+Proof. exact ListingText.lines_of_unlines. Qed.
+
+Check C14_text. Check C14_text_lines.
 Check C14_input_round_trip. Check C14_courses. Check C14_partition. Check C14_once. Check C14_flags. Check C14_count. Check C14_array.
 Print Assumptions C14_partition.
 Print Assumptions C14_once.
@@ -59,3 +79,5 @@ Print Assumptions C14_flags.
 Print Assumptions C14_count.
 Print Assumptions C14_array.
 Print Assumptions C14_input_round_trip.
+Print Assumptions C14_text.
+Print Assumptions C14_text_lines.
